@@ -1647,7 +1647,13 @@ class TokamakEquilibrium(Equilibrium):
         # BoutMesh generator can use jyseps indices to introduce branch cuts
 
         if "inner_lower_divertor" in region_objects:
-            if not self.user_options.start_at_upper_outer:
+            # start_at_upper_outer only applies to double null (as for an upper single
+            # null, it is ignored for a lower single null: the single-null topology
+            # indices written to the grid file assume the standard ordering)
+            if (
+                not self.user_options.start_at_upper_outer
+                or "inner_core" not in region_objects
+            ):
                 ordering = [
                     "inner_lower_divertor",
                     # For single null; in double null this will be ignored
